@@ -4,6 +4,9 @@
                                                       do the declaration setters call `set_sp()`)
     $VERIF_REPO/src/pygom/model/simulate.py          (`HasNewTransition.states`, `add_func` registrations)
     $VERIF_REPO/src/pygom/model/deterministic.py     (`add_func` registrations and their `is_master_canary`)
+    $VERIF_REPO/src/pygom/model/ode_utils/compile_canary.py   (where the flags live: does `CompileCanary.trip()` REBIND
+                                                      `self._states` - one dict per canary object - or update it in
+                                                      place - the class attribute `_states = {}` shared by all)
 
 so that `Pygom.C08Source.extracted_good` / `extracted_watches_registered` are re-checked against what the
 source says NOW.  What is extracted (and nothing else):
@@ -17,6 +20,13 @@ source says NOW.  What is extracted (and nothing else):
                           `self._hasNewTransition.trip()`: in the same block, or after the enclosing compound
                           statement in an enclosing block
 * `extractedDeclSetsSp` - both declaration setters call `self.set_sp()` after their mutations
+* `extractedTripRebinds` - every statement of `CompileCanary.trip` is an assignment `self._states = <expression not
+                          mentioning _states>` (true), or some statement writes INTO `self._states` (subscript
+                          assignment, `.update/.clear/.setdefault/.pop`, possibly inside `for`/`if`) (false)
+* `extractedInitTrips`  - `CompileCanary.__init__` calls `self.trip()`, and neither `HasNewTransition` subclass defines
+                          anything but `states`
+  (`extractedSharedStore` = not (rebinds and init trips): with a class-level `_states` that is never rebound per object,
+   all canaries of all model instances share one dict)
 
 A mutator in which no definition-changing statement can be found, or a missing class / method, is a REFUSAL
 (broken tie, reported as such) - never silently `true`.
@@ -162,8 +172,95 @@ def _registrations(cls):
     return out
 
 
+def _mentions_states(node):
+    return any(isinstance(n, ast.Attribute) and n.attr == "_states" for n in ast.walk(node))
+
+
+def _is_self_states(node):
+    return isinstance(node, ast.Attribute) and node.attr == "_states" and isinstance(node.value, ast.Name) and node.value.id == "self"
+
+
+def _writes_into_states(st):
+    """statement that updates the dict `self._states` in place"""
+    if isinstance(st, (ast.Assign, ast.AugAssign)):
+        targets = st.targets if isinstance(st, ast.Assign) else [st.target]
+        if all(isinstance(t, ast.Subscript) and _is_self_states(t.value) for t in targets) and not _mentions_states(st.value):
+            return True
+    if isinstance(st, ast.Expr) and isinstance(st.value, ast.Call) and isinstance(st.value.func, ast.Attribute) \
+            and st.value.func.attr in ("update", "clear", "setdefault", "pop") and _is_self_states(st.value.func.value):
+        return True
+    return False
+
+
+def _trip_store(cls):
+    """-> (rebinds: bool).  Translated subset of `trip`: docstring; `self._states = <expr without _states>`; in-place writes
+    (above), possibly nested in `for` / `if` whose headers do not mention `_states`.  Anything else: Refuse."""
+    fn = _method(cls, "trip", False)
+    kinds = []
+
+    def walk(block, top):
+        for i, st in enumerate(block):
+            if isinstance(st, ast.Expr) and isinstance(st.value, ast.Constant) and isinstance(st.value.value, str):
+                continue
+            if isinstance(st, ast.Pass):
+                continue
+            if isinstance(st, ast.Assign) and len(st.targets) == 1 and _is_self_states(st.targets[0]):
+                if _mentions_states(st.value) or not top:
+                    raise Refuse("CompileCanary.trip: `self._states = ...` built from the old dict, or inside a compound statement")
+                kinds.append("rebind")
+            elif _writes_into_states(st):
+                kinds.append("inplace")
+            elif isinstance(st, (ast.For, ast.If)) and not _mentions_states(st.iter if isinstance(st, ast.For) else st.test):
+                walk(st.body, False)
+                walk(st.orelse, False)
+            else:
+                raise Refuse("CompileCanary.trip: statement outside the translated subset (line %d)" % st.lineno)
+    walk(fn.body, True)
+    if not kinds:
+        raise Refuse("CompileCanary.trip does not write `_states`")
+    if "inplace" in kinds:
+        # a rebinding FIRST, followed by in-place writes to the new dict, still gives one dict per object
+        return kinds[0] == "rebind"
+    return True
+
+
+def _init_trips(cls):
+    init = _method(cls, "__init__", False)
+    return any(isinstance(st, ast.Expr) and _is_self_attr_call(st.value, ["trip"]) for st in init.body)
+
+
+def _only_states(cls):
+    for n in cls.body:
+        if isinstance(n, ast.Expr) and isinstance(n.value, ast.Constant):
+            continue
+        if isinstance(n, ast.Assign) and all(isinstance(t, ast.Name) and t.id == "states" for t in n.targets):
+            continue
+        raise Refuse("%s defines more than `states` (line %d)" % (cls.name, n.lineno))
+    return True
+
+
+def _class_level_states(cls):
+    """`_states` is a class attribute of CompileCanary (if it is not, `self._states[...]` in `trip` would raise before any
+    sharing could happen; the modelled source has it)"""
+    return any(isinstance(n, ast.Assign) and any(isinstance(t, ast.Name) and t.id == "_states" for t in n.targets) for n in cls.body)
+
+
 def translate(repo):
-    res = {"refused": [], "trips": {}, "watched": [], "registered": [], "declSetsSp": None, "detail": {}}
+    res = {"refused": [], "trips": {}, "watched": [], "registered": [], "declSetsSp": None, "detail": {},
+           "tripRebinds": None, "initTrips": None}
+    try:
+        p = os.path.join(repo, "src", "pygom", "model", "ode_utils", "compile_canary.py")
+        with open(p, "rb") as f:
+            cc = _class(ast.parse(f.read().decode("utf-8", "replace"), filename=p), "CompileCanary")
+        res["tripRebinds"] = _trip_store(cc)
+        ok = _init_trips(cc)
+        for rel in ("base_ode_model.py", "simulate.py"):
+            ok = ok and _only_states(_class(_parse(repo, rel), "HasNewTransition"))
+        res["initTrips"] = ok
+        res["detail"]["flag_store"] = {"trip_rebinds_self._states": res["tripRebinds"], "init_calls_trip": ok,
+                                       "class_level__states": _class_level_states(cc)}
+    except (Refuse, OSError, SyntaxError) as e:
+        res["refused"].append({"what": "compile_canary.CompileCanary (flag store)", "detail": str(e)})
     try:
         base = _class(_parse(repo, "base_ode_model.py"), "BaseOdeModel")
     except (Refuse, OSError, SyntaxError) as e:
@@ -206,7 +303,8 @@ def render(res):
     def b(x):
         return "true" if x else "false"
     lines = ["/-",
-             "GENERATED by harness/translate_canary.py from base_ode_model.py, simulate.py, deterministic.py of the tree under test.",
+             "GENERATED by harness/translate_canary.py from base_ode_model.py, simulate.py, deterministic.py, ode_utils/compile_canary.py",
+             "of the tree under test.",
              "Do not edit: rewritten (only when it changes) by every run of ./check C08.",
              "-/",
              "import Pygom.Canary",
@@ -229,6 +327,15 @@ def render(res):
     lines += ["",
               "/-- both declaration setters call `self.set_sp()` after declaring the new symbols -/",
               "def extractedDeclSetsSp : Bool := %s" % b(res["declSetsSp"]),
+              "",
+              "/-- every statement of `CompileCanary.trip` that writes `_states` REBINDS `self._states` (a new dict per canary object) -/",
+              "def extractedTripRebinds : Bool := %s%s" % (b(res.get("tripRebinds")), "" if res.get("tripRebinds") is not None else "   -- REFUSED: could not be extracted"),
+              "",
+              "/-- `CompileCanary.__init__` calls `self.trip()`; the `HasNewTransition` subclasses define nothing but `states` -/",
+              "def extractedInitTrips : Bool := %s" % b(res.get("initTrips")),
+              "",
+              "/-- all canaries of all model instances write one dict (the class attribute `_states`) -/",
+              "def extractedSharedStore : Bool := !(extractedTripRebinds && extractedInitTrips)",
               "",
               "/-- the source variant the text of the tree under test describes -/",
               "def extractedCfg : Cfg :=",
@@ -255,4 +362,4 @@ def regenerate(repo):
 if __name__ == "__main__":
     import json, sys
     r = regenerate(sys.argv[1] if len(sys.argv) > 1 else os.environ.get("VERIF_REPO", "/repo"))
-    print(json.dumps({k: r[k] for k in ("trips", "watched", "registered", "declSetsSp", "refused", "detail", "changed")}, indent=1))
+    print(json.dumps({k: r[k] for k in ("trips", "watched", "registered", "declSetsSp", "tripRebinds", "initTrips", "refused", "detail", "changed")}, indent=1))
